@@ -199,6 +199,8 @@ def run(chk, scratch):
         out = os.path.join(d, "out")
         ev = os.path.join(d, "ev")
         strategy = ["--model_construction_strategy", "sensitive_ont", "--report_novel_unspliced", "true"]
+        if (seed + threads) % 2 == 0:
+            strategy += ["--polya_requirement", "never"]      # clusters without tails yield models too (a reference isoform seen from two clusters)
         r = pipeline.run(d, out, threads=threads, annotated=(mode != "free"), extra=strategy, mon=["ids"], events=ev)
         return job, d, w, id_map, exon_ids, out, ev, r
     total_twice = 0
